@@ -47,3 +47,19 @@ Lemma w_acc_repaired :
 Proof.
   repeat split; try reflexivity. intros b [<-|[<-|[]]]; reflexivity.
 Qed.
+
+(* F30: the first use of the cast of %a0 is a reader inside a loop; with zero iterations the copy-in placed
+   in the loop body never runs and the reader after the loop observes the uninitialised buffer *)
+Definition w_copy_in_loop : list item :=
+  [IAlloc 2; ICast 3 0 1 0; ICast 4 1 1 0;
+   ILoop 0 [IOp 1 [(3, KIn); (2, KOut)]]; IOp 2 [(3, KIn); (4, KOut)]]%nat.
+
+Lemma copy_in_inside_loop_refuted :
+  bad_nested_in w_copy_in_loop = true /\ bad_nested w_copy_in_loop = false /\
+  realize_all w_copy_in_loop =
+    [IAlloc 2; IAlloc 3; IAlloc 4; ILoop 0 [ICopy 0 3; IOp 1 [(3, KIn); (2, KOut)]];
+     IOp 2 [(3, KIn); (4, KOut)]; ICopy 4 1]%nat /\
+  trace (exec_list (fun _ => 0%nat) (realize_all w_copy_in_loop) init_state) <>
+  trace (exec_list (fun _ => 0%nat) w_copy_in_loop init_state).
+Proof. repeat split; try reflexivity. vm_compute. discriminate. Qed.
+
